@@ -106,3 +106,12 @@ package tools
 //@   assumed
 //@   props C01 C02 C08 C09
 //@   noeffect
+
+// Spool hands everything the reader still delivers to the writer, unchanged
+// and in order (the first kilobyte through memory, the rest through a temp
+// file in the directory given).
+//@ func Spool
+//@   props C08 C09
+//@   requires @inv to != nil && from != nil
+//@   requires @C09 !isobjdir(dir)
+//@   ensures result1 == nil && !dyntype(to, "*os.File") && !is_tee(to) ==> wbuf(to) == scat(old(wbuf(to)), old(rrest(from))) && result0 == len(old(rrest(from)))
